@@ -404,9 +404,14 @@ class Server(base_server.BaseServer):
             if eio_sid is None:
                 # another thread is already disconnecting this client
                 return
-            self._send_packet(eio_sid, self.packet_class(
-                packet.DISCONNECT, namespace=namespace))
             try:
+                try:
+                    self._send_packet(eio_sid, self.packet_class(
+                        packet.DISCONNECT, namespace=namespace))
+                except engineio.exceptions.SocketIsClosedError:
+                    # the connection is being closed by another thread, which
+                    # leaves the client, already marked, to this one
+                    pass
                 self._trigger_event('disconnect', namespace, sid,
                                     self.reason.SERVER_DISCONNECT)
             finally:
